@@ -138,7 +138,9 @@ func crashRun(prop, entry string, quick bool, seed uint64, tape []uint64, useTap
 			}
 		}
 	}
-	if summary == "" {
+	if summary == "" || len(frames) == 0 {
+		// no frame of the code under test on the crashing stack: the harness itself failed; that is
+		// trouble (exit 2), never a verdict about the code under test
 		return false, "", nil
 	}
 	return true, summary, frames
